@@ -392,6 +392,14 @@ func init() {
 				c.NonTrivial(k.Hash())
 			}
 		})...)
+		us = append(us, bigUnits(msgs, tier, 60, func(c *core.Ctx, d *domainPDU, i int) {
+			ep := entryFor(d.Def, i)
+			k := &core.Case{Oracle: "total", Target: "nas.Message." + epNames[ep], B: [][]byte{d.B}, I: []int64{ep}}
+			c.Do(k)
+			if i%4 == 0 {
+				c.NonTrivial(k.Hash())
+			}
+		})...)
 		for _, def := range msgs {
 			def := def
 			if len(def.OptSlots()) == 0 {
